@@ -116,6 +116,11 @@ class AdditionalNameWrapper(Object):
         # type: () -> loc_t
         return self.value.declared_at  # type: ignore[union-attr] # TODO
 
+    @property
+    def filename(self):
+        # type: () -> str
+        return self.value.filename  # type: ignore[union-attr]
+
     def attr_list(self, ctx):
         # type: (EvalCtx) -> AttrList
         if self.value:
@@ -343,16 +348,28 @@ class MultiValue(Object):
     def attr_list(self, ctx):
         # type: (EvalCtx) -> AttrList
         result: set[str] = set()
-        for v in self.get_rvalues(ctx):
-            result.update(v.attr_list(ctx))
+        if getattr(self, '_busy', False):
+            return result  # one of the assigned values is (made of) this very attribute
+        self._busy = True
+        try:
+            for v in self.get_rvalues(ctx):
+                result.update(v.attr_list(ctx))
+        finally:
+            self._busy = False
         return result
 
     def get_attr(self, ctx, name):
         # type: (EvalCtx, str) -> Object | Name | None
-        for v in self.get_rvalues(ctx):
-            result = v.get_attr(ctx, name)
-            if result is not None:
-                return result
+        if getattr(self, '_busy', False):
+            return None
+        self._busy = True
+        try:
+            for v in self.get_rvalues(ctx):
+                result = v.get_attr(ctx, name)
+                if result is not None:
+                    return result
+        finally:
+            self._busy = False
         return None
 
 
